@@ -1019,7 +1019,8 @@ func strayFiles(p *FSPlan, e *fsEnv) string {
 		case strings.HasPrefix(path, e.dest+"/"):
 		case strings.HasPrefix(rel, "root/tmp/"), rel == "root/res_v1-0-0.bin.gz", rel == "root/pkg_v1-0-0.zip":
 		case strings.HasPrefix(path, e.tmp+"/"), strings.HasPrefix(path, e.exp+"/"):
-		case filepath.Dir(path) == filepath.Dir(e.dest) && strings.HasPrefix(filepath.Base(path), ".") && !(p.Explicit && explicitTmpPrim(p.Prim)):
+		case filepath.Dir(path) == filepath.Dir(e.dest) && strings.HasPrefix(filepath.Base(path), ".") && !(p.Explicit && explicitTmpPrim(p.Prim)) && p.Prim != "unpackgz" && p.Prim != "fetch":
+			// (downloads and unpacked files of a registry have the registry's tmp directory as their temporary location)
 			// (without an explicitly named temporary directory the destination's directory is the temporary location)
 		case strings.HasPrefix(filepath.Base(filepath.Dir(path)), ".") && filepath.Dir(filepath.Dir(path)) == filepath.Dir(e.dest):
 			// temp dir of the symlink helper next to the destination
